@@ -635,6 +635,11 @@ class Interp:
             return list(v.keys())
         if isinstance(v, str):
             return list(v)
+        if isinstance(v, Sym) and v.kind == STR and v.parts is not None:
+            from . import strparts
+            n = strparts.concrete_len(v)
+            if n is not strparts.NOTFOUND:
+                return [strparts.char_at(v, i) for i in range(n)]
         if isinstance(v, (set, frozenset)):
             return sorted(v, key=repr)
         if isinstance(v, lib.ConcreteIter):
